@@ -86,7 +86,7 @@ pub fn run_c20(out: &mut Out, rng: &mut Rng, tier: Tier) -> String {
                     match k {
                         0 => 0,
                         1 => 2,
-                        2 | 3 => *rng.pick(&[0usize, 1, 2, 3, 7, 8, 11, 12, 13, 14, 16, 18, 19]),
+                        2 | 3 => *rng.pick(&[0usize, 1, 2, 3, 7, 8, 11, 12, 13, 14, 16, 18, 19, 20, 21, 0, 0]),
                         _ => rng.below(PALETTE.len()),
                     }
                 };
@@ -104,7 +104,7 @@ pub fn run_c20(out: &mut Out, rng: &mut Rng, tier: Tier) -> String {
         out.nontrivial();
     }
     format!(
-        "every shape 0..={bound} x 0..={bound} x {per_shape} assignments of element renderings from a 20-entry palette (empty string, ASCII, multi-byte, blank, tab, bare CR, renderings with LF / CRLF / trailing and doubled line breaks): all-empty, all-equal, single-line mixes, arbitrary mixes; \
+        "every shape 0..={bound} x 0..={bound} x {per_shape} assignments of element renderings from a 22-entry palette (empty string, ASCII, multi-byte, blank, tab, bare CR, renderings with LF / CRLF / trailing and doubled line breaks): all-empty, all-equal, single-line mixes, arbitrary mixes; \
          each logical matrix is built in both storage orders and formatted with Display and Debug (crate features full = parallel + pretty-debug, NO_COLOR set); plus 3x4, 10x11 and 1x101 for 2- and 3-digit index labels. \
          Oracle: never a panic; element-less => `[]`; for single-line renderings exactly one bracketed line per logical row with the row's elements in column order, padded to the common width, all lines equally wide in characters; Display text identical for both orders. A case = one logical matrix"
     )
